@@ -490,9 +490,46 @@ def cmp_rule(ck, mod, label, only_over=False):
     return 1
 
 
+def _len_derived_unbounded(f, v, li, depth=0, seen=None):
+    """v is computed from the length parameter li without passing a small mask or remainder that bounds it"""
+    seen = seen if seen is not None else set()
+    v = tuple(v)
+    if v == ("a", li):
+        return True
+    if v in seen or v[0] != "i" or depth > 12:
+        return False
+    seen.add(v)
+    J = f.inst(v)
+    if J is None:
+        return False
+    if J.op == "and":
+        cs = [const_val(o) for o in J.ops if isinstance(o, (list, tuple)) and o[0] == "c"]
+        if cs and 0 <= cs[0] < 256:
+            return False
+    if J.op in ("urem", "load", "call", "icmp"):
+        return False
+    if J.op in ("zext", "sext", "trunc", "freeze", "add", "sub", "lshr", "udiv", "and", "phi", "select", "shl", "mul"):
+        return any(_len_derived_unbounded(f, o, li, depth + 1, seen) for o in J.ops if isinstance(o, (list, tuple)) and o and o[0] in ("i", "a"))
+    return False
+
+
 def wipe_rule(ck, mod, f, label, pi, li, si, envs, only_over=False):
     from .. import cov
     where0 = relpath("%s:%d" % (f.file, f.line))
+    # the wipe covers plaintext_len bytes at its full width: a mask with clear upper bits (0xFFFC for ~3) or a truncation applied to a value
+    # computed from the length wipes (length mod 2^k) bytes only (complete: every and / trunc of the function is looked at)
+    for I in f.insts:
+        k_ = None
+        if I.op == "and":
+            cs = [const_val(o) for o in I.ops if isinstance(o, (list, tuple)) and o[0] == "c"]
+            if cs and cs[0] > 0 and 8 <= cs[0].bit_length() < 64 and (I.bits or 64) == 64:
+                k_ = cs[0].bit_length()
+        elif I.op == "trunc" and 8 <= (I.bits or 64) < 64:
+            k_ = I.bits
+        if k_ is not None and any(_len_derived_unbounded(f, o, li) for o in I.ops if isinstance(o, (list, tuple)) and o and o[0] in ("i", "a")):
+            ck.bad("R-C04-WIPE", CT, "wipe-length-masked#%s[%s]" % (_an(f, I), label),
+                   "a value computed from plaintext_len is cut to %d bits (%s): on a rejection of a message of 2^%d bytes or more only (length mod 2^%d) bytes are wiped" % (k_, I.op, k_, k_),
+                   where=relpath(I.where))
     # (1) coverage: the stores to the plaintext buffer tile exactly [0, plaintext_len) in every (alignment, length) class
     n, bad, used = cov.coverage(f, pi, li, fixed_args={si: TAG}, only_over=only_over)
     ck.ob(bad is None, "R-C04-WIPE", CT, "wipe-coverage[%s]" % label,
